@@ -33,9 +33,14 @@ def run_behavioural(v, cases, name, nontrivial_min=2, shard_size=None, min_nontr
         if r.status != 'ok':
             v.cov['blocked'] += 1
             bs = v.notes.setdefault('blocked_samples', [])
+            diag = [(d['code'] or '') + ' ' + d['msg'][:240] for d in r.errors()[:2]]
             if len(bs) < 8:
-                bs.append({'key': r.case.key, 'status': r.status,
-                           'diag': [(d['code'] or '') + ' ' + d['msg'][:240] for d in r.errors()[:2]]})
+                bs.append({'key': r.case.key, 'status': r.status, 'diag': diag})
+            if r.case.expect == 'accept':
+                # a documented request whose expansion is refused or does not compile: the property cannot hold for this type
+                # (this is primarily C01's finding; it is reported here too so that it cannot hide behind a skipped case)
+                v.violation(r.case, 'the request is in the documented space but %s: %s' % (
+                    {'educe_diag': 'educe refuses it', 'panic': 'the macro panics on it'}.get(r.status, 'the generated code does not compile (%s)' % r.status), ' ;; '.join(diag)))
             continue
         if not r.ran and r.case.run:
             raise RuntimeError('case %s compiled but did not report' % r.case.key)
@@ -54,6 +59,5 @@ def run_behavioural(v, cases, name, nontrivial_min=2, shard_size=None, min_nontr
         from ..core import log
         log('[%s] BLOCKED %d of %d programs do not compile (that is C01\'s business): %s' % (
             name, v.cov['blocked'], n, v.notes['blocked_samples'][:3]))
-    guard(v.cov['blocked'] <= max_blocked_ratio * n, '%d of %d %s programs do not compile: see C01' % (v.cov['blocked'], n, name))
     guard(nontriv >= min_nontrivial_ratio * (n - v.cov['blocked']), 'too few non-trivial programs in %s (%d of %d)' % (name, nontriv, n))
     return res
